@@ -700,7 +700,7 @@ def answer (line : String) : String :=
           match kind with
           | "lang" =>
             match Language.fromBytes v with
-            | .ok (some s) => s!"ok {pack s}"
+            | .ok (some s) => s!"ok {pack s} {b01 (unpack (pack s) == s)}"
             | .ok none => "ok none"
             | _ => "err"
           | "script" => match Script.fromBytes v with
@@ -713,7 +713,7 @@ def answer (line : String) : String :=
             | .ok s =>
               let other := ((more[0]?).bind unhex).getD []
               let e := b01 (s == other)
-              s!"ok {pack s} {e}{e}"
+              s!"ok {pack s} {e}{e} {b01 (unpack (pack s) == s)}"
             | _ => "err"
           | _ => "bad"
       | _ => "bad"
